@@ -102,7 +102,33 @@ def run_unit(unit) -> UnitResult:
         def mk(src):
             return make_rep(rep_kind, ctx.g, src, d, gene_length=L, decider=unit["decider"])
 
-        for gt in genotypes(ctx, unit):
+        from mc.explorer import HarnessError as _HE
+
+        try:
+            gts = genotypes(ctx, unit)
+        except _HE as e:
+            if "replay divergence" not in str(e):
+                raise
+            r.add_violation(Violation(PROP, site, "identical-mappings-diverge", {"rep": rep_kind, "decider": unit["decider"]}, {"unit": P.clean_unit(unit)},
+                                      f"{ctx.spec['name']}: creating and mapping genotypes under identical random answers took different paths "
+                                      f"({e}): the mapping depends on state outside the genotype"))
+            return r
+
+        def map_once(gt0):
+            g1 = gt0
+            if rep_kind == "dsge":
+                from geneticengine.representations.grammatical_evolution.dynamic_structured_ge import Genotype as _G
+
+                g1 = _G(ExhaustiveSource((), wide_domain=gene_domain(P.GENES_DSGE)), {k: list(v) for k, v in gt0.dna.items()})
+            try:
+                return R.term(mk(ExhaustiveSource(())).genotype_to_phenotype(g1))
+            except HorizonExceeded:
+                return ("<horizon>",)
+            except Exception as e:  # noqa
+                return ("exc", type(e).__name__)
+
+        first_pass = [map_once(gt) for gt in gts]
+        for gt in gts:
             snap0 = genotype_snapshot(gt)
             w = {"unit": P.clean_unit(unit), "genotype": repr(snap0)[:300]}
             # (A) all answers of an exhaustive shared source
@@ -126,8 +152,20 @@ def run_unit(unit) -> UnitResult:
                         appended["n"] = sum(len(v) for v in g2.dna.values()) - n0
                 return mk(src).genotype_to_phenotype(gt)
 
-            for ex in explore(run, max_execs=unit["max_execs"], horizon=300, stats=st,
-                              source_kwargs={"wide_domain": gene_domain(P.GENES_DSGE)} if rep_kind == "dsge" else {}):
+            from mc.explorer import HarnessError
+
+            def guarded():
+                try:
+                    yield from explore(run, max_execs=unit["max_execs"], horizon=300, stats=st,
+                                       source_kwargs={"wide_domain": gene_domain(P.GENES_DSGE)} if rep_kind == "dsge" else {})
+                except HarnessError as e:
+                    if "replay divergence" not in str(e):
+                        raise
+                    r.add_violation(Violation(PROP, site, "identical-mappings-diverge", {"rep": rep_kind, "decider": unit["decider"]}, w,
+                                              f"{ctx.spec['name']}: mapping the same genotype under the same answers of the shared source took a "
+                                              f"different path the second time ({e}): the mapping depends on state outside the genotype"))
+
+            for ex in guarded():
                 r.executions += 1
                 if ex.capped:
                     continue
@@ -187,6 +225,16 @@ def run_unit(unit) -> UnitResult:
                 r.capped += 1
             except Exception as e:  # noqa  -- failing mappings are compared in (A)
                 r.count("history_mapping_raised")
+        # (C) every genotype is mapped once more at the very end of the history: same program as at the very start
+        for gt, t0 in zip(gts, first_pass):
+            t1 = map_once(gt)
+            r.executions += 2
+            if t1 != t0:
+                r.add_violation(Violation(PROP, site, "remapping-differs-later", {"rep": rep_kind, "decider": unit["decider"]},
+                                          {"unit": P.clean_unit(unit), "genotype": repr(genotype_snapshot(gt))[:300]},
+                                          f"{ctx.spec['name']}: a genotype mapped to {_show(t0)[:80]} at the start of the history and to "
+                                          f"{_show(t1)[:80]} after other genotypes had been mapped"))
+                break
         if len(r.samples) < 1:
             r.samples.append({"grammar": ctx.spec["name"], "rep": rep_kind, "decider": unit["decider"], "genotypes": r.counters.get("genotypes_mapped", 0)})
     finally:
